@@ -129,6 +129,13 @@ def struct_pack(ip, args, kw, ctx):
             return struct.pack(fmt, v)
         except struct.error as e:
             _raise("struct.error", str(e))
+    from .sym import besum_of
+    be = besum_of(v)
+    if be is not None and len(be) <= n and all(ctx.entails(z3.And(zi(b) >= 0, zi(b) <= 255)) for b in be if isz(b)):
+        bs = [0] * (n - len(be)) + list(be)
+        if order == "le":
+            bs = list(reversed(bs))
+        return Seq('bytes', [Elems(bs)])
     inr = simp(z3.And(v >= 0, v < 256 ** n))
     if not ctx.branch(inr):
         _raise("struct.error", "argument out of range")
